@@ -56,8 +56,28 @@ def check_einsums(ctx: Ctx, term: T, typer: Typer, entry: FunctionInfo, rule1="T
             ctx.unknown(rule1, fi, node, inst, "no operand could be typed")
         else:
             ctx.passed(rule1, fi, node, inst, f"operands {ops} -> {out}", facts={"letters": letters})
-        # variance: a state vector contracted with a kernel
         ins = spec.replace(" ", "").split("->")[0].split(",")
+        # the observation kernel is conditioned on the state *entered*: its state letter is the transition's successor letter
+        t_sub = o_sub = None
+        for sub, a, r in zip(ins, args[1:], ops):
+            if r is None or len(sub) != len(r):
+                continue
+            core = a
+            while core.op == "subscript":
+                core = core.args[0]
+            b = typer.base_array(core)
+            if b is None and core.op == "phi":
+                lv = typer.leaves(core)
+                b = "transition_matrix" if lv == {"transition_matrix"} else None
+            if b == "transition_matrix" and "S2" in r:
+                t_sub = sub[r.index("S2")]
+            if b == "observation_matrix" and "S2" in r:
+                o_sub = sub[r.index("S2")]
+        if t_sub is not None and o_sub is not None:
+            ctx.check(t_sub == o_sub, rule2, fi, node, f"einsum('{spec}'): observation kernel bound to the successor state", "",
+                      f"the observation kernel's state axis uses letter '{o_sub}' but the transition kernel's successor axis is '{t_sub}': "
+                      f"observations would be conditioned on the state left instead of the state entered")
+        # variance: a state vector contracted with a kernel
         kernels = []
         for sub, r in zip(ins, ops):
             if r is not None and "S" in r and "S2" in r and len(sub) == len(r):
@@ -343,6 +363,13 @@ def monomials(t: T, depth: int = 0) -> List[List[T]]:
         if len(alts) == 1:
             return monomials(alts[0], depth + 1)
     if t.op == "subscript":
+        # only pure views (slices, None/newaxis, ellipsis, constants) are looked through; selecting with an index
+        # array / variable (argmax selection, gather) yields an opaque value
+        idx = t.args[1]
+        items = list(idx.args[0]) if idx.op == "tuple" else [idx]
+        pure = all(i.op in ("slice", "const") or (i.op == "attr" and i.args[1] == "newaxis") for i in items)
+        if not pure:
+            return [[t]]
         inner = monomials(t.args[0], depth + 1)
         return inner if len(inner) > 1 or (inner and inner[0] and inner[0][0] is not t.args[0]) else [[t]]
     if t.op == "call":
@@ -370,6 +397,8 @@ def monomials(t: T, depth: int = 0) -> List[List[T]]:
                 out = new
             return out
         if f.op == "attr" and f.args[1] in PRESERVE_METHODS:
+            return monomials(f.args[0], depth + 1)
+        if f.op == "attr" and f.args[1] in ("view", "reshape", "expand", "squeeze", "unsqueeze") and ext_name(f) is None:
             return monomials(f.args[0], depth + 1)
         if f.op == "attr" and f.args[1] in ("sum", "nansum") and ext_name(f) is None:
             return monomials(f.args[0], depth + 1)
